@@ -36,7 +36,7 @@ ASSUME = ["a command counts as buffered from the cycle whose process_io() receiv
 def run(ck):
     exe = build(ck)["h_c12"]
     if ck.tier == "quick":
-        ck.explore(exe, ["--midcycles=2"], "b1-mid2", budget=1, deadline_s=190)
+        ck.explore(exe, ["--midcycles=2"], "b1-mid2", budget=1, deadline_s=215)
     else:
         ck.explore(exe, [], "b2", budget=2, deadline_s=2000)
     cov = vlib.mc_coverage(ck.parts, RULE, extra={
